@@ -114,7 +114,7 @@ def at_scale_case(ctx, g, rng):
 
 
 def run_case(ctx, g, rng):
-    if g % 307 == 307 - 1:
+    if g % (307 if ctx.tier == "quick" else 2459) == 306:
         return at_scale_case(ctx, g, rng)
     import curies
 
